@@ -279,3 +279,67 @@ def first_incomplete(t, values, i):
     if not complete_ok(ci, values[val(ci.attribute)]):
         return i
     return first_incomplete(t, values, i + 1)
+
+
+# ---- closing a container: conversion (C02) ---------------------------------------------------------------------
+def item_conv(dt, b, a):
+    """One collected value b (a ValueInfo) and its converted counterpart a."""
+    return is_alt(b, 'vi') and is_alt(a, 'pv') and alt(a, 'pv') == dt_val(dt, alt(b, 'vi').value)
+
+
+def vp_conv(dt, b, a):
+    return is_alt(b, 'vi') and is_alt(a, 'pv') and alt(a, 'pv') == dt_val(dt, alt(b, 'vi').value)
+
+
+def sect_conv(b, a):
+    """A collected section value b and what the tree holds for it: the value passed through the
+    datatype of the section's own type."""
+    return (is_alt(b, 'sv') and is_alt(a, 'pv') and
+            alt(a, 'pv') == sdt_val(val(alt(b, 'sv')._matcher.type.datatype), alt(b, 'sv')))
+
+
+def mitem_conv(ci, b, a):
+    """Entry of a wildcard key's mapping: a single value, or (wildcard multikey) the list of values
+    in file order."""
+    if ci.maxOccurs > 1:
+        return (is_alt(b, 'lst') and is_alt(a, 'lst') and len(alt(a, 'lst')) == len(alt(b, 'lst')) and
+                forall(lambda j: implies(0 <= j and j < len(alt(b, 'lst')),
+                                         vp_conv(val(ci.datatype), alt(b, 'lst')[j], alt(a, 'lst')[j]))))
+    return is_alt(b, 'vi') and is_alt(a, 'pv') and alt(a, 'pv') == dt_val(val(ci.datatype), alt(b, 'vi').value)
+
+
+def kmap_conv(ci, b, a):
+    """Mapping of a wildcard key before / after conversion: the same keys in the same order, each
+    entry converted."""
+    return (keys(a) == keys(b) and
+            forall('str', lambda x: implies(x in b, mitem_conv(ci, b[x], a[x]))))
+
+
+@opaque(['Ref[info.BaseInfo]', 'Slot', 'Slot'], 'bool', reveal=['matcher.BaseMatcher.constuct'])
+def conv_ok(ci, b, a):
+    """C02: what the value tree holds for child ci (slot a) given what was collected and completed
+    for it (slot b): a single key its converted value or None; a multikey its converted values in
+    file order; a wildcard key the mapping from normalised key to converted value(s), the schema
+    defaults being used only when the text supplied no key at all; a section slot the section's
+    value passed through its section datatype, or None; a multisection the values in file order."""
+    if isa(ci, 'info.SectionInfo'):
+        if ci.maxOccurs > 1:
+            return (is_alt(b, 'lst') and is_alt(a, 'lst') and len(alt(a, 'lst')) == len(alt(b, 'lst')) and
+                    forall(lambda j: implies(0 <= j and j < len(alt(b, 'lst')),
+                                             sect_conv(alt(b, 'lst')[j], alt(a, 'lst')[j]))))
+        if is_alt(b, 'none'):
+            return is_alt(a, 'none')
+        return sect_conv(b, a)
+    if is_wildcard_key(ci):
+        if not is_alt(b, 'kmap') or not is_alt(a, 'kmap'):
+            return False
+        if len(alt(b, 'kmap')) == 0:
+            return kmap_conv(ci, alt(default_of(ci), 'kmap'), alt(a, 'kmap'))
+        return kmap_conv(ci, alt(b, 'kmap'), alt(a, 'kmap'))
+    if ci.maxOccurs > 1:
+        return (is_alt(b, 'lst') and is_alt(a, 'lst') and len(alt(a, 'lst')) == len(alt(b, 'lst')) and
+                forall(lambda j: implies(0 <= j and j < len(alt(b, 'lst')),
+                                         item_conv(val(ci.datatype), alt(b, 'lst')[j], alt(a, 'lst')[j]))))
+    if is_alt(b, 'none'):
+        return is_alt(a, 'none')
+    return is_alt(b, 'vi') and is_alt(a, 'pv') and alt(a, 'pv') == dt_val(val(ci.datatype), alt(b, 'vi').value)
